@@ -36,7 +36,7 @@ namespace BitSerializer
 
 namespace BitSerializer::Convert::Detail
 {
-	constexpr size_t UtcBufSize = 32;
+	constexpr size_t UtcBufSize = 48;
 	constexpr int DaysInMonth[12] = { 31, 29, 31, 30, 31, 30, 31, 31, 30, 31, 30, 31 };
 
 	template <class TFractions = std::chrono::nanoseconds,
@@ -369,8 +369,12 @@ namespace BitSerializer::Convert::Detail
 			if (utc.Year >= 10000) {
 				*pos++ = '+';
 			}
-			const size_t outSize = snprintf(pos, endPos - pos, "%04" PRId64 "-%02d-%02dT%02d:%02d:%02d", utc.Year, utc.Month, utc.Day, utc.Hour, utc.Min, utc.Sec);
-			if (outSize > 0)
+			else if (utc.Year < 0) {
+				*pos++ = '-';
+			}
+			const uint64_t absYear = utc.Year < 0 ? 0 - static_cast<uint64_t>(utc.Year) : static_cast<uint64_t>(utc.Year);
+			const int outSize = snprintf(pos, endPos - pos, "%04" PRIu64 "-%02d-%02dT%02d:%02d:%02d", absYear, utc.Month, utc.Day, utc.Hour, utc.Min, utc.Sec);
+			if (outSize > 0 && outSize < endPos - pos)
 			{
 				pos += outSize;
 				if (utc.SecFractions) {
